@@ -4,17 +4,23 @@
   tie          the extracted model (harness/C06/mdrv.ml) and the C implementation compiled from
                $VERIF_REPO (harness/C06/drv.c, ASan+UBSan, replacement a_alloc) run the same case
                files; every operation prints one canonical line (return value, both string objects
-               with their whole heap block, allocator events) and the lines must be identical.
+               with their whole heap block, allocator events, and the read-only API evaluated on both
+               objects: acc= the driver's own comparison of a_str_ptr/len/mem/at/at_/of with the fields
+               over whole index ranges, q= the values of those accessors, a_utf_len and a_str_cmp_ at
+               indices derived from the operation number, which the model computes too:
+               coq/C06/StrAccDefs.v) and the lines must be identical.
   search       oracle_case(): the property itself, written independently of the Rocq model, is
                evaluated on what the C printed (abstract byte strings kept in Python); a sanitizer
                abort is a failing input too.  Failing cases are shrunk (ddmin on the op list).
 
 Case file syntax (one op per line; T = A|B; sizes: decimal | '=' (blob length) | [NMR][+-]k
 relative to T's num / mem / room before the op, '-' saturating; data = blob cycled to the size):
-  case <id> / sched <0/1...> / end
+  case <id> / mk <a><b> / sched <0/1...> / end     (mk: how the C builds object A and B: s = a_str_ctor on static
+                                                    storage + a_str_dtor, h = a_str_new + a_str_die, i = A_STR_INIT + a_str_dtor)
   dtor T | swap | exit T | setm T sz | setm_ T sz | setn T sz | setn_ T sz | getc T | getc_ T
   catc T int | catc_ T int | getn T want sz | getn_ T want sz | catn T blob sz | catn_ T blob sz
   cats T blob sz | cats_ T blob sz | cat T self | cat_ T self | catf T mode blob sz [arg]
+  catv T mode blob sz [arg]   (catf through a direct a_str_catv call with a va_list)
   rtrim[_]/ltrim[_]/trim[_] T setblob | utf T u32 | cmp T | cmpn T blob sz | cmps T blob sz
 """
 import json
@@ -35,7 +41,7 @@ H = vlib.VERIF / "harness" / PID
 CORPUS = vlib.VERIF / "corpus" / PID
 U64 = 1 << 64
 
-CFUNC = {"utf": "a_utf_catc", "catf": "a_str_catf"}
+CFUNC = {"utf": "a_utf_catc", "catf": "a_str_catf", "catv": "a_str_catv"}
 
 
 def cfunc(op):
@@ -44,13 +50,15 @@ def cfunc(op):
 
 # ---------------------------------------------------------------------------------- cases
 class Case:
-    __slots__ = ("cid", "sched", "ops")
+    __slots__ = ("cid", "sched", "ops", "mk")
 
-    def __init__(self, cid, ops, sched=None):
-        self.cid, self.ops, self.sched = cid, list(ops), sched
+    def __init__(self, cid, ops, sched=None, mk=None):
+        self.cid, self.ops, self.sched, self.mk = cid, list(ops), sched, mk
 
     def text(self):
         l = ["case %s" % self.cid]
+        if self.mk:
+            l.append("mk " + self.mk)
         if self.sched:
             l.append("sched " + self.sched)
         l.extend(self.ops)
@@ -73,6 +81,8 @@ def parse_case_file(txt, prefix=""):
             cur = None
         elif t[0] == "sched":
             cur.sched = t[1] if len(t) > 1 else None
+        elif t[0] == "mk":
+            cur.mk = t[1] if len(t) > 1 else None
         elif cur is not None:
             cur.ops.append(" ".join(t))
     return cases
@@ -134,7 +144,7 @@ def fmt_num_op(rng, t):
     else:
         v = rng.choice([0, 7, 99999, 100000, 4294967295, rng.randrange(0, 1 << 32)])
         txt = "%05u|%-4s|" % (v, "ab")
-    return "catf %s %s %s = %d" % (t, mode, hx(txt.encode()), v)
+    return "%s %s %s %s = %d" % (rng.choice(["catf", "catf", "catv"]), t, mode, hx(txt.encode()), v)
 
 
 def rand_op(rng, kind):
@@ -152,15 +162,16 @@ def rand_op(rng, kind):
         return "cat%s %s %d" % (rng.choice(["", "_"]), t, 1 if rng.random() < 0.35 else 0)
     if r < 0.50:
         m = rng.random()
+        cf = rng.choice(["catf", "catf", "catv"])
         if m < 0.45:
-            return "catf %s s %s %s" % (t, bl("txt" if kind != "trimmy" else "trimmy0"), data_size(rng))
+            return "%s %s s %s %s" % (cf, t, bl("txt" if kind != "trimmy" else "trimmy0"), data_size(rng))
         if m < 0.60:
-            return "catf %s l %s %s" % (t, bl("ascii"), data_size(rng))
+            return "%s %s l %s %s" % (cf, t, bl("ascii"), data_size(rng))
         if m < 0.80:
             n = rng.randrange(1, 14)
             d = blob(rng, "txt", n)
             d[n // 2] = rng.choice([0, 0, 0x41, 0xff, 0x25])
-            return "catf %s c %s =" % (t, hx(d))
+            return "%s %s c %s =" % (cf, t, hx(d))
         return fmt_num_op(rng, t)
     if r < 0.55:
         return "utf %s %d" % (t, rng.choice(UTF_EDGES) if rng.random() < 0.6 else rng.randrange(0, 1 << 32))
@@ -212,7 +223,7 @@ def rand_case(rng, cid):
     ops2 = []
     for o in ops:
         t = o.split()
-        if t[0] == "catf" and t[2] == "s":
+        if t[0] in ("catf", "catv") and t[2] == "s":
             b = bytes.fromhex(t[3]) if t[3] != "-" else b""
             b = bytes(x if x else 0x20 for x in b) or b" "
             t[3] = b.hex()
@@ -225,7 +236,10 @@ def rand_case(rng, cid):
     sched = None
     if rng.random() < 0.06:
         sched = "".join(rng.choice("1110") for _ in range(rng.randrange(1, 12)))
-    return Case(cid, ops2, sched)
+    return Case(cid, ops2, sched, rng.choice(MK))
+
+
+MK = ["ss", "hh", "ii", "sh", "hi", "is"]
 
 
 def systematic_cases(maxfill, tag):
@@ -241,8 +255,12 @@ def systematic_cases(maxfill, tag):
     for s in ("0", "1", "R-2", "R-1", "R+0", "R+1", "R+2", "R+8"):
         probes.append(["catf A s %s %s" % (txt, s)])
         probes.append(["catf A l %s %s" % (hx(b"ab%cd"), s)])
+    for s in ("0", "R-1", "R+0", "R+1"):
+        probes.append(["catv A s %s %s" % (txt, s)])
     probes.append(["catf A c %s =" % hx(b"ab\0cd")])
+    probes.append(["catv A c %s =" % hx(b"ab\0cd")])
     probes.append(["catf A d %s = -17" % hx(b"-17")])
+    probes.append(["catv A d %s = -17" % hx(b"-17")])
     for c in (65, 0, 255, -2, 300):
         probes.append(["catc A %d" % c])
         probes.append(["catc_ A %d" % c])
@@ -266,13 +284,13 @@ def systematic_cases(maxfill, tag):
         for fillop in ("catn_", "catn"):
             for p in probes:
                 ops = ["cats B %s 3" % txt, "%s A %s %d" % (fillop, fill_blob, f)] + p + ["cmp A", "exit A", "exit B"]
-                cases.append(Case("%s%d" % (tag, k), ops))
+                cases.append(Case("%s%d" % (tag, k), ops, None, MK[k % len(MK)]))
                 k += 1
     return cases
 
 
 # ---------------------------------------------------------------------------------- running
-LINE_RE = re.compile(r"^(\d+) (\S+) r=(\S+) A=(\d),(\d+),(\d+),(\d+),(\S+) B=(\d),(\d+),(\d+),(\d+),(\S+) ev=(\S+)$")
+LINE_RE = re.compile(r"^(\d+) (\S+) r=(\S+) A=(\d),(\d+),(\d+),(\d+),(\S+) B=(\d),(\d+),(\d+),(\d+),(\S+) ev=(\S+) acc=(\S+) q=(\S+)$")
 
 
 def split_cases(out):
@@ -415,9 +433,90 @@ TERMINATING = {"catc", "catn", "cats", "cat", "catf", "utf"}
 
 
 class Fail(Exception):
-    def __init__(self, kind, msg):
+    def __init__(self, kind, msg, func=None):
         Exception.__init__(self, msg)
         self.kind = kind
+        self.func = func          # the API function at fault when it is not the operation's own
+
+
+def utf_walk(b):
+    """(code points, bytes consumed) of a_utf_len on content b, from the documented decoder: a byte below 0x80 is one
+    code point (NUL stops), a lead byte with k leading 1-bits below the top bit needs k continuation bytes 10xxxxxx
+    inside a window of 6 bytes and inside the content (k = 0: a stray continuation byte counts as one), anything
+    else stops the count."""
+    pos = cnt = 0
+    n = len(b)
+    while pos < n:
+        c = b[pos]
+        if c < 0x80:
+            if c == 0:
+                break
+            r = 1
+        else:
+            k, m = 0, 0x40
+            while m and (c & m):
+                k += 1
+                m >>= 1
+            if k + 1 > min(n - pos, 6) or any((b[pos + j] & 0xC0) != 0x80 for j in range(1, k + 1)):
+                break
+            r = k + 1
+        pos += r
+        cnt += 1
+    return cnt, pos
+
+
+Q_FIELDS = [("a_str_ptr", "a_str_ptr(s)"), ("a_str_len", "a_str_len(s)"), ("a_str_mem", "a_str_mem(s)"),
+            ("a_str_at_", "a_str_at_(s, %(i1)d)"), ("a_str_at", "a_str_at(s, %(i2)d)"),
+            ("a_str_of", "a_str_of(s, %(j)d)"), ("a_utf_len", "a_utf_len(s, &stop)"),
+            ("a_utf_len", "stop of a_utf_len(s, &stop)"), ("a_utf_len", "a_utf_len(s, NULL)")]
+
+
+def check_accessors(k, acc, q, new, branches=None):
+    """The read-only API on what the C printed (objects satisfy the invariant here): the driver's own verdict (acc=)
+    and the probed values (q=) against the fields / the content of the block, computed independently of the model."""
+    if acc != "ok":
+        m = re.match(r"BAD:(\w+):([^:]*):([^:]*):([AB])(-?\d+)$", acc)
+        if not m:
+            raise Fail("accessor", "unparsable acc token " + acc[:80], func="harness")
+        if "," in m.group(2):
+            raise Fail("construct", "object %s built through %s has ptr_!=NULL,num_,mem_ = %s, expected %s"
+                       % (m.group(4), m.group(1), m.group(2), m.group(3)), func=m.group(1))
+        raise Fail("accessor", "%s on object %s (num=%d mem=%d) with index %s returned %s, expected %s ('-' NULL, number = "
+                   "offset from ptr_, W = outside the block)" % (m.group(1), m.group(4), new[m.group(4)][1], new[m.group(4)][2],
+                                                                  m.group(5), m.group(2), m.group(3)), func=m.group(1))
+    parts = q.split(";")
+    if len(parts) != 3 or any(len(x.split(",")) != 9 for x in parts[:2]):
+        raise Fail("accessor", "unparsable q token " + q[:120], func="harness")
+    for nm, part in zip("AB", parts):
+        p, num, mem, bs, blk = new[nm]
+        h = (k * 2654435761 + 12345) % (1 << 32)       # drv.c mix(): the operation number, scrambled
+        i1 = h % mem if mem else 0
+        i2 = h // 7 % (mem + 2)
+        j = h // 3 % (num + mem + 3) - (num + 1)
+        n = j if j >= 0 else (j + U64 + num) % U64
+        cnt, stop = utf_walk(blk[:num])
+        want = ["0" if p else "-", str(num), str(mem), str(i1) if (p and mem) else "x",
+                str(i2) if i2 < mem else "-", str(n) if n < mem else "-", str(cnt), str(stop), str(cnt)]
+        if branches is not None:
+            for lab, hit in (("at-null", i2 >= mem), ("at-inside", i2 < mem), ("of-negative-inside", j < 0 and n < mem),
+                             ("of-negative-null", j < 0 and n >= mem), ("of-positive-null", j >= 0 and n >= mem),
+                             ("utf-multibyte", cnt < stop), ("utf-stops-early", stop < num)):
+                if hit:
+                    branches["acc:" + lab] = branches.get("acc:" + lab, 0) + 1
+        for (fn, desc), got, w in zip(Q_FIELDS, part.split(","), want):
+            if got != w:
+                raise Fail("accessor", "object %s (num=%d mem=%d content %s), k=%d: %s gave %s, expected %s ('-' NULL, number "
+                           "= offset from ptr_ / count, W = outside the block)"
+                           % (nm, num, mem, hx(blk[:num]), k, desc % {"i1": i1, "i2": i2, "j": j}, got, w),
+                           func=fn)
+    a = new["A"][4][:(k * 2654435761 + 12345) % (1 << 32) // 5 % (new["A"][1] + 1)]
+    b = new["B"][4][:new["B"][1]]
+    w = str((a > b) - (a < b))
+    if branches is not None:
+        branches["acc:cmp_-prefix" + w] = branches.get("acc:cmp_-prefix" + w, 0) + 1
+    if parts[2] != w:
+        raise Fail("accessor", "a_str_cmp_(<%s>, %d, <%s>, %d) has sign %s, bytewise lexicographic order with the length as "
+                   "tie-break gives %s" % (hx(a), len(a), hx(b), len(b), parts[2], w), func="a_str_cmp_")
 
 
 def oracle_case(case, lines, branches=None):
@@ -425,6 +524,10 @@ def oracle_case(case, lines, branches=None):
     Returns None or (op index, key, message).  `branches` (dict) collects coverage labels."""
     abs_ = {"A": b"", "B": b""}
     st = {"A": INIT, "B": INIT}
+    if branches is not None and case.ops:
+        for lab, ch in (("heap-object", "h"), ("init-object", "i")):
+            if ch in (case.mk or ""):
+                branches["acc:" + lab] = branches.get("acc:" + lab, 0) + 1
     for i, opl in enumerate(case.ops):
         t = opl.split()
         op = t[0]
@@ -549,7 +652,7 @@ def oracle_case(case, lines, branches=None):
                     exp[tg] = content + src
                     term = op == "cat"
                     br = ("self-" if t[2] == "1" else "") + ("grow" if evs else "fits") + ("-empty" if not src else "")
-            elif op == "catf":
+            elif op in ("catf", "catv"):
                 blb = bytes.fromhex(t[3]) if t[3] != "-" else b""
                 n = resolve(t[4], pre, len(blb))
                 d = mkdata(t[3], n)
@@ -609,8 +712,10 @@ def oracle_case(case, lines, branches=None):
                 if not (num < mem and num < len(blk) and blk[num] == 0):
                     raise Fail("terminator", "no NUL directly after the content inside the capacity (num=%d mem=%d)"
                                % (num, mem))
+            check_accessors(i, g[14], g[15], new, branches)
         except Fail as f:
-            return (i, "%s/%s" % (cfunc(op), f.kind), "op %d `%s`: %s" % (i, opl[:120], f))
+            return (i, "%s/%s" % (f.func or cfunc(op), f.kind), "%s `%s`: %s" % ("after op %d" % i if f.func else "op %d" % i,
+                                                                                  opl[:120], f))
         if branches is not None:
             k = op + ":" + br
             branches[k] = branches.get(k, 0) + 1
@@ -623,7 +728,8 @@ def oracle_case(case, lines, branches=None):
             m = re.search(r"kind=(\S+)", e)
             return (len(case.ops), "a_str_dtor/sanitizer:%s" % (m.group(1) if m else "abort"), "abort at end of case: " + e)
         if e.startswith("end") and e != "end live=0":
-            return (len(case.ops), "a_str_dtor/leak", "blocks still live after both destructors: " + e)
+            fn = "a_str_die" if "h" in (case.mk or "") else "a_str_dtor"
+            return (len(case.ops), fn + "/leak", "blocks still live after both objects were destroyed (mk %s): %s" % (case.mk or "ss", e))
     return None
 
 
@@ -634,7 +740,10 @@ catc:fits catc:grow catc_:fits catc_:grow exit:null exit:fits exit:grow getc:emp
 getn:zero getn:clipped getn:part getn_:part setn:shrink setn:grow setn:obounds setm:noop setm:realloc setm_:realloc
 rtrim:none-space rtrim:some-space rtrim:all-space rtrim:some-set ltrim:some-set ltrim:all-set trim:some-set trim:all-space
 utf:len0-fits utf:len1-fits utf:len2-fits utf:len3-fits utf:len4-fits utf:len5-fits utf:len6-fits utf:len6-grow
-cmp:null cmp:i0 cmp:i1 cmp:i-1 cmpn:i0 cmpn:i1 cmpn:i-1 cmps:i0 cmps:i1 cmps:i-1""".split()
+cmp:null cmp:i0 cmp:i1 cmp:i-1 cmpn:i0 cmpn:i1 cmpn:i-1 cmps:i0 cmps:i1 cmps:i-1
+catv:fits catv:grow catv:grow-room0 catv:fits-exact catv:fits-empty
+acc:at-null acc:at-inside acc:of-negative-inside acc:of-negative-null acc:of-positive-null acc:utf-multibyte acc:utf-stops-early
+acc:cmp_-prefix-1 acc:cmp_-prefix0 acc:cmp_-prefix1 acc:heap-object acc:init-object""".split()
 
 
 # ---------------------------------------------------------------------------------- driver of a batch
@@ -673,14 +782,14 @@ def process(cbin, mbin, cases, collect=True):
 
 def shrink(cbin, case, key):
     def fails(ops):
-        c = Case("s", ops, case.sched)
+        c = Case("s", ops, case.sched, case.mk)
         out = run_c(cbin, [c], max_restarts=2)
         f = oracle_case(c, out.get("s", []))
         return bool(f) and f[1] == key
     if not fails(case.ops):
         return case
     ops = vlib.ddmin(case.ops, fails, max_tests=250)
-    return Case(case.cid + "-min", ops, case.sched)
+    return Case(case.cid + "-min", ops, case.sched, case.mk)
 
 
 def build(ctx):
@@ -837,7 +946,10 @@ def run(ctx):
                         "random": len(cases) - n_corpus - n_sys}
     opmix = {}
     for k, v in tot["branches"].items():
+        if k.startswith("acc:"):
+            continue
         opmix[k.split(":")[0]] = opmix.get(k.split(":")[0], 0) + v
+    ctx.cov["accessor_probe_hits"] = {k[4:]: v for k, v in sorted(tot["branches"].items()) if k.startswith("acc:")}
     ctx.cov["op_mix"] = dict(sorted(opmix.items()))
     ctx.cov["branch_hits"] = dict(sorted(tot["branches"].items()))
     ctx.cov["branches_not_reached"] = [b for b in EXPECTED_BRANCHES if b not in tot["branches"]]
@@ -848,6 +960,10 @@ def run(ctx):
         "malloc/realloc/free modelled by StrDefs.a_alloc (fault schedule, fresh bytes canonicalised to 0xA5 by the harness allocator)",
         "char is signed; isspace = C locale; memcpy/memmove/memchr/memcmp/strlen = list operations",
         "extraction (ExtrOcamlBasic) and the OCaml/C drivers harness/C06/{mdrv.ml,drv.c}",
+        "read-only API (a_str_ptr/len/mem/at_/at/of, a_utf_len, a_str_cmp_): model coq/C06/StrAccDefs.v (a_utf_len = coq/C18/UtfDefs.v "
+        "a_utf_length on the content) evaluated after every operation by both drivers (token q=); the C driver also compares the "
+        "index accessors with the fields over whole index ranges (token acc=); objects are built by a_str_ctor, a_str_new and "
+        "A_STR_INIT in turn (mk), a_str_catv is also called directly with a va_list (op catv)",
         "ASan/UBSan as observers of out-of-block accesses in the C run"]
     # a disagreement that is exactly a failure listed as open in KNOWN_FINDINGS.txt (same key, the
     # first differing line is the failing operation) is reported as KNOWN-FINDING and does not
